@@ -67,11 +67,13 @@ Theorem C05_all_histories_all_segments : forall evs g s,
 Proof. exact tx_all_histories. Qed.
 Print Assumptions C05_all_histories_all_segments.
 
-(* ---- every segment dispatch hands to emit (p; also when the device then refuses it) ---- *)
+(* ---- every segment dispatch transmits (DSent p).  The only side condition: the model did not
+   turn the (empty) segment into a keep-alive, which tcp_dispatch itself reports as branch tag 245
+   (keep-alive segments: payload [0] at SND.NXT-1, exempted by interpretation).  The same claims for
+   every BUILT segment, transmitted or refused, are part of C05_all_histories_all_segments. ---- *)
 
-Theorem C05_tx_payload_is_stream : forall cx g s e s' res tags p,
-  inv g s -> ctx_ok cx -> tcp_dispatch cx s e = Ok (s', res, tags) -> disp_pkt res = Some p ->
-  ~ (exists s1, frame s s1 /\ is_keep_alive_seg s1 cx (snd p)) ->
+Theorem C05_tx_payload_is_stream : forall cx g s e s' tags p,
+  inv g s -> ctx_ok cx -> tcp_dispatch cx s e = Ok (s', DSent p, tags) -> ~ In 245 tags ->
   0 < l_len (r_payload (snd p)) ->
   exists k, r_seq_number (snd p) = sq (g_iss g + 1 + k) /\ g_acked g <= k /\
             k + l_len (r_payload (snd p)) <= l_len (g_stream g) /\
@@ -86,9 +88,8 @@ Theorem C05_retransmission_same_bytes : forall g g' k n,
 Proof. exact same_epoch_slice. Qed.
 Print Assumptions C05_retransmission_same_bytes.
 
-Theorem C05_tx_within_window : forall cx g s e s' res tags p,
-  inv g s -> ctx_ok cx -> tcp_dispatch cx s e = Ok (s', res, tags) -> disp_pkt res = Some p ->
-  ~ (exists s1, frame s s1 /\ is_keep_alive_seg s1 cx (snd p)) ->
+Theorem C05_tx_within_window : forall cx g s e s' tags p,
+  inv g s -> ctx_ok cx -> tcp_dispatch cx s e = Ok (s', DSent p, tags) -> ~ In 245 tags ->
   0 < l_len (r_payload (snd p)) ->
   exists k, r_seq_number (snd p) = sq (g_iss g + 1 + k) /\
     (k + l_len (r_payload (snd p)) <= g_acked g + s_remote_win_len s \/
@@ -97,9 +98,8 @@ Theorem C05_tx_within_window : forall cx g s e s' res tags p,
 Proof. exact tx_within_window. Qed.
 Print Assumptions C05_tx_within_window.
 
-Theorem C05_tx_within_mss_mtu : forall cx g s e s' res tags p,
-  inv g s -> ctx_ok cx -> tcp_dispatch cx s e = Ok (s', res, tags) -> disp_pkt res = Some p ->
-  ~ (exists s1, frame s s1 /\ is_keep_alive_seg s1 cx (snd p)) ->
+Theorem C05_tx_within_mss_mtu : forall cx g s e s' tags p,
+  inv g s -> ctx_ok cx -> tcp_dispatch cx s e = Ok (s', DSent p, tags) -> ~ In 245 tags ->
   0 < l_len (r_payload (snd p)) ->
   l_len (r_payload (snd p)) <= s_remote_mss s /\
   wipv4_HEADER_LEN + ip_payload_len (fst p) <= cx_ip_mtu cx.
@@ -135,17 +135,15 @@ Theorem C05_dispatch_keeps_learned : forall cx g s e s' res tags,
 Proof. exact dispatch_keeps_learned. Qed.
 Print Assumptions C05_dispatch_keeps_learned.
 
-Theorem C05_tx_new_data_contiguous : forall cx g s e s' res tags p,
-  inv g s -> ctx_ok cx -> tcp_dispatch cx s e = Ok (s', res, tags) -> disp_pkt res = Some p ->
-  ~ (exists s1, frame s s1 /\ is_keep_alive_seg s1 cx (snd p)) ->
+Theorem C05_tx_new_data_contiguous : forall cx g s e s' tags p,
+  inv g s -> ctx_ok cx -> tcp_dispatch cx s e = Ok (s', DSent p, tags) -> ~ In 245 tags ->
   0 < l_len (r_payload (snd p)) ->
   exists k, r_seq_number (snd p) = sq (g_iss g + 1 + k) /\ 1 + k <= g_hw g.
 Proof. exact tx_new_data_contiguous. Qed.
 Print Assumptions C05_tx_new_data_contiguous.
 
-Theorem C05_fin_after_all_data : forall cx g s e s' res tags p,
-  inv g s -> ctx_ok cx -> tcp_dispatch cx s e = Ok (s', res, tags) -> disp_pkt res = Some p ->
-  ~ (exists s1, frame s s1 /\ is_keep_alive_seg s1 cx (snd p)) ->
+Theorem C05_fin_after_all_data : forall cx g s e s' tags p,
+  inv g s -> ctx_ok cx -> tcp_dispatch cx s e = Ok (s', DSent p, tags) -> ~ In 245 tags ->
   r_control (snd p) = CFin ->
   g_fin g = true /\
   exists k, r_seq_number (snd p) = sq (g_iss g + 1 + k) /\
@@ -159,9 +157,8 @@ Theorem C05_fin_freezes_stream : forall g g', same_epoch g g' -> g_fin g = true 
 Proof. exact fin_freezes_stream. Qed.
 Print Assumptions C05_fin_freezes_stream.
 
-Theorem C05_syn_window_unscaled : forall cx g s e s' res tags p,
-  inv g s -> ctx_ok cx -> tcp_dispatch cx s e = Ok (s', res, tags) -> disp_pkt res = Some p ->
-  ~ (exists s1, frame s s1 /\ is_keep_alive_seg s1 cx (snd p)) ->
+Theorem C05_syn_window_unscaled : forall cx g s e s' tags p,
+  inv g s -> ctx_ok cx -> tcp_dispatch cx s e = Ok (s', DSent p, tags) -> ~ In 245 tags ->
   r_control (snd p) = CSyn ->
   l_len (r_payload (snd p)) = 0 /\ r_seq_number (snd p) = sq (g_iss g) /\
   r_window_len (snd p) = u16_try (rb_window (s_rx_buffer s)).
